@@ -204,13 +204,6 @@ static int _decode
 				dec->data.len = mlen;
 				return MPT_ERROR(MissingData);
 			}
-			/* no remaining target space */
-			if (!proc) {
-				dec->_ctx = MPT_cobs_state(code, pos);
-				dec->curr = done + mlen + proc;
-				dec->data.len = mlen;
-				return 0;
-			}
 			/* no remaining data on current part */
 			while (!dlen--) {
 				dst  = (uint8_t *) dvec->iov_base;
